@@ -349,7 +349,17 @@ class FlatColumn:
             return dct
 
         data = orjson.loads(json_str)
-        return cls(**data)
+        return cls.from_dict(data)
+
+    @classmethod
+    def from_dict(cls, dic: dict) -> "FlatColumn":
+        """
+        Create a column from the dictionary form written by to_json and RelationSchema.to_dict.
+        """
+        if dic.get("type") == OrsoTypes._MISSING_TYPE.value:
+            # an untyped column is written as the value of _MISSING_TYPE, which is not a type name
+            dic = {**dic, "type": OrsoTypes._MISSING_TYPE}
+        return cls(**dic)
 
 
 @dataclass(init=False)
@@ -672,7 +682,7 @@ class RelationSchema:
         )
         for column in dic["columns"]:
             if isinstance(column, dict):
-                schema.columns.append(FlatColumn(**column))
+                schema.columns.append(FlatColumn.from_dict(column))
             if isinstance(column, str):
                 schema.columns.append(FlatColumn(name=column))
         return schema
